@@ -42,49 +42,321 @@ HUB = "netqasm.sdk.classical_communication.thread_socket.socket_hub"
 SOCK = "netqasm.sdk.classical_communication.thread_socket.socket"
 
 
-def check_subclass_state_before_publish(ctx, ts, rule="C18.I"):
-    """ThreadSocket.__init__ ends in the hub's connect(): from that call on the peer can reach the socket's callbacks, while the
-    constructor of a subclass is still running.  Whatever state a subclass's callbacks read must therefore exist before the base
-    constructor is called: an attribute that a callback of the class reads and that __init__ assigns only after super().__init__()
-    does not exist yet when a message arrives in the rendezvous window (the message is delivered nowhere)."""
+class _KeysBroken(Exception):
+    """the keys of the two endpoints do not mirror each other: no history that needs a rendezvous can be run"""
+
+
+def check_socket_api(ctx, hub, ts):
+    """The socket classes as an application uses them, executed by the checker's interpreter: ThreadSocket objects are built by
+    their own constructor (which connects through the hub object of the class attribute - one hub per history, as the module-level
+    hub is one object per process), the second endpoint is constructed while the first one sleeps in its rendezvous loop, and the
+    decorated send / recv methods are called as decorated.  The logger, the lock, the clock, sleep, WeakMethod and json are modelled
+    (json by the library itself on the plain dictionaries the code hands it); receive callbacks are recorded.
+
+    Histories (plain, silent and structured variants of every wrapper; callback delivery on one, both or neither side; two socket
+    ids between the same two applications):
+      - what each wrapper sends is what the matching receive wrapper of the peer returns, once, in order, and nothing appears in
+        the sender's own queue or under the other socket id (C18.K passes-own-socket-and-message, remote_key-mirrors-key);
+      - a callback socket gets each message through its callback exactly once and nothing is queued for it; a socket without
+        callbacks gets it queued exactly once and no callback runs (C18.K send:callback-..., at-most-one-delivery);
+      - after the peer (or the socket itself) has disconnected every send wrapper raises ConnectionError and hands nothing to the
+        hub (C18.I refuses-when-not-connected);
+      - a message sent before the sender disconnected is still returned by every receive wrapper, also when the receiver has
+        disconnected itself meanwhile (C18.W);
+      - a message the peer sends at the very moment the socket's key appears in the registry reaches the callback (C18.I connect:
+        callbacks are registered before the key is published)."""
+    import json as _json
+    from .. import circuit as C
     repo = ctx.repo
-    base_init = ts.methods.get("__init__")
-    publishes = base_init is not None and any(isinstance(c, ast.Call) and isinstance(c.func, ast.Attribute) and c.func.attr == "connect" for c in ast.walk(base_init))
-    n = 0
-    for mod in repo.modules.values():
-        for c in mod.classes.values():
-            if c is ts or ts not in repo.mro(c):
-                continue
-            init = c.methods.get("__init__")
-            cbs = [f for name, f in c.methods.items() if name.endswith("_callback")]
-            if init is None or not cbs:
-                continue
-            n += 1
-            ctx.fn(f"{c.name}.__init__")
-            read = set()
-            for f in cbs:
-                me = A.param_names(f)[0] if A.param_names(f) else "self"
-                for x in ast.walk(f):
-                    if isinstance(x, ast.Attribute) and isinstance(x.value, ast.Name) and x.value.id == me and isinstance(x.ctx, ast.Load):
-                        read.add(x.attr)
-            body = A.strip_docstring(init.body)
-            sup = next((k for k, st in enumerate(body) if any(isinstance(x, ast.Call) and isinstance(x.func, ast.Attribute) and x.func.attr == "__init__" and isinstance(x.func.value, ast.Call)
-                                                                and dotted(x.func.value.func) == "super" for x in ast.walk(st))), None)
+    sm_cls = repo.get_class("netqasm.sdk.classical_communication.message", "StructuredMessage")
+    hub_attr = repo.lookup_attr(ts, "_SOCKET_HUB")
+    if hub_attr is None or hub_attr[2] is None:
+        raise AnalysisError("ThreadSocket._SOCKET_HUB (the class-level hub) not found")
 
-            def assigned(stmts):
-                out = set()
-                for st in stmts:
-                    for x in ast.walk(st):
-                        if isinstance(x, ast.Attribute) and isinstance(x.value, ast.Name) and x.value.id == "self" and isinstance(x.ctx, ast.Store):
-                            out.add(x.attr)
-                return out
+    class _Log:
+        _nqsa_model = True
 
-            late = sorted((assigned(body[sup + 1:]) - assigned(body[:sup])) & read) if sup is not None else []
-            ctx.check(rule, f"{c.name}.__init__:state-of-the-callbacks-exists-before-the-socket-is-published", not (publishes and late),
-                      f"{c.name}.__init__ assigns {late} only after super().__init__(), which connects the socket and registers its callbacks; {', '.join(f.name for f in cbs)} read{'s' if len(cbs) == 1 else ''} "
-                      f"{'it' if len(late) == 1 else 'them'}: a message the peer sends while this constructor is still waiting for the rendezvous reaches the callback before the attribute exists and is delivered nowhere",
-                      c.loc(init), sample={"class": c.name, "callback state": sorted(read)})
-    ctx.check(rule, "socket-subclasses-with-callbacks-examined", True, sample={"classes": n}, trivial=True)
+        def debug(self, *a_, **k_):
+            return None
+        info = warning = error = debug
+
+        def __enter__(self):
+            return self
+
+        def __exit__(self, *a_):
+            return False
+
+    class PubSet(set):
+        """the registry of open sockets; tells the history when a key appears in it"""
+        hook = None
+
+        def add(self, k_):
+            new = k_ not in self
+            set.add(self, k_)
+            if new and self.hook is not None:
+                self.hook(k_)
+
+        def update(self, *others):
+            for o_ in others:
+                for k_ in list(o_):
+                    self.add(k_)
+
+        def __ior__(self, other):
+            self.update(other)
+            return self
+
+        def __or__(self, other):
+            r_ = PubSet(self)
+            r_.hook = self.hook
+            r_.update(other)
+            return r_
+
+    class World:
+        def __init__(self, record_callbacks=True):
+            sc = self.sc = C.Scenario()
+            sc.run_constructors = True
+            sc.real_objects = True
+            sc.max_depth = 120
+            sc.apply_decorators = True
+            sc.overrides["get_netqasm_logger"] = lambda *a_, **k_: _Log()
+            self.clock, self.sleeps, self.script = [0.0], [0], []
+            self.delivered = {}
+            self.lost = {}
+
+            def timer_():
+                self.clock[0] += 0.1
+                return self.clock[0]
+
+            def sleep_(*a_, **k_):
+                self.sleeps[0] += 1
+                if self.script:
+                    self.script.pop(0)()
+                    return None
+                raise C.EvalRaise("Deadlock", "nobody else will act")
+
+            sc.externals.update({"timeit.default_timer": timer_, "time.sleep": sleep_, "weakref.WeakMethod": (lambda meth: (lambda: meth)),
+                                 "threading.Lock": (lambda: _Log()), "json.dumps": _json.dumps, "json.loads": _json.loads})
+            if record_callbacks:
+                sc.method_overrides = {"recv_callback": lambda o_, msg: self.delivered.setdefault(self.key(o_), []).append(msg),
+                                       "conn_lost_callback": lambda o_: self.lost.__setitem__(self.key(o_), self.lost.get(self.key(o_), 0) + 1)}
+            self.I = C.Interp(repo, ctx.ev, sc, ts)
+            self.hub = self.I.class_attr(hub_attr)
+            if not isinstance(self.hub, C.Obj) or not isinstance(self.hub.fields.get("_open_sockets"), set):
+                raise AnalysisError("the hub object of ThreadSocket._SOCKET_HUB has no set `_open_sockets` after its constructor")
+            self.registry = PubSet(self.hub.fields["_open_sockets"])
+            self.hub.fields["_open_sockets"] = self.registry
+
+        def key(self, o_):
+            return self.I.getattr(o_, "key")
+
+        def socket(self, me, peer, sid=0, cb=False, cls_=None):
+            if cls_ is not None and cls_ is not ts:
+                return self.I.construct(cls_, [me, peer], {"socket_id": sid}, None)  # (a subclass decides about callbacks itself)
+            return self.I.construct(ts, [me, peer], {"socket_id": sid, "use_callbacks": cb}, None)
+
+        def pair(self, sid=0, cb_a=False, cb_b=False):
+            out = {}
+            self.script.append(lambda: out.__setitem__("b", self.socket("bob", "alice", sid, cb_b)))
+            a = self.socket("alice", "bob", sid, cb_a)
+            if "b" not in out:
+                raise AnalysisError("the second endpoint was never constructed: the first constructor did not wait for it")
+            return a, out["b"]
+
+        def call(self, o_, name, *args, **kw):
+            try:
+                return ("ok", self.I.method(o_, name, list(args), kw, None))
+            except C.EvalRaise as ex_:
+                return ("raises", ex_.exc_name)
+
+        def drain(self, s_):
+            """what the hub still holds for this socket"""
+            out = []
+            for _ in range(8):
+                r_ = self.call(self.hub, "recv", s_, block=False)
+                if r_[0] != "ok":
+                    break
+                out.append(r_[1])
+            return out
+
+        def structured(self, h_, p_):
+            return self.I.construct(sm_cls, [h_, p_], {}, None)
+
+    def plain(v):
+        if isinstance(v, C.Obj):
+            return (v.cls.name if v.cls is not None else "?", tuple(sorted((k_, plain(x_)) for k_, x_ in v.fields.items())))
+        return v
+
+    bad = {}
+    n_hist = 0
+    SENDS = [("send", "recv"), ("send_silent", "recv_silent"), ("send_structured", "recv_structured")]
+    try:
+        # keys
+        n_hist += 1
+        w = World()
+        w.sc.method_overrides["connect"] = lambda o_, *a_, **k_: None   # (the keys are looked at without a rendezvous, which itself depends on them)
+        a, b, a1, b1 = w.socket("alice", "bob", 0), w.socket("bob", "alice", 0), w.socket("alice", "bob", 1), w.socket("bob", "alice", 1)
+        ka, kb, ka1, kb1 = (w.key(x_) for x_ in (a, b, a1, b1))
+        rk = [w.I.getattr(x_, "remote_key") for x_ in (a, b, a1, b1)]
+        if rk != [kb, ka, kb1, ka1] or len({ka, kb, ka1, kb1}) != 4:
+            bad["ThreadSocket:remote_key-mirrors-key"] = f"keys {[ka, kb, ka1, kb1]}, remote keys {rk}: remote_key of an endpoint must be the key of its peer (names swapped, same id) and the four keys distinct"
+        if bad:
+            raise _KeysBroken()
+        # every wrapper pair, queued delivery; two socket ids side by side
+        for smeth, rmeth in SENDS:
+            n_hist += 1
+            w = World()
+            a, b = w.pair(0)
+            a1, b1 = w.pair(1)
+            mk = (lambda t_: w.structured("h" + t_, t_)) if smeth == "send_structured" else (lambda t_: t_)
+            texts = ["m1", "", "m3"]
+            for t_ in texts:
+                r_ = w.call(a, smeth, mk(t_))
+                if r_[0] != "ok":
+                    raise AnalysisError(f"ThreadSocket.{smeth} on a connected pair raises {r_[1]}")
+            w.call(a1, smeth, mk("other id"))
+            w.call(b, smeth, mk("back"))
+            got = [w.call(b, rmeth, block=False) for _ in texts] + [w.call(b, rmeth, block=False)]
+            want = [("ok", plain(mk(t_))) for t_ in texts]
+            if [(g_[0], plain(g_[1])) for g_ in got[:3]] != want or got[3][0] != "raises":
+                bad.setdefault(f"ThreadSocket.{smeth}:passes-own-socket-and-message", f"alice.{smeth} of {texts}, then four bob.{rmeth}(block=False) give {[(g_[0], plain(g_[1])) for g_ in got]}; expected the three messages in order, then emptiness")
+            rest = {"alice": [plain(x_) for x_ in [w.call(a, rmeth, block=False)[1]]], "bob id 1": [plain(x_) for x_ in [w.call(b1, rmeth, block=False)[1]]], "alice id 1": w.drain(a1)}
+            if rest != {"alice": [plain(mk("back"))], "bob id 1": [plain(mk("other id"))], "alice id 1": []}:
+                bad.setdefault(f"ThreadSocket.{smeth}:passes-own-socket-and-message", f"messages for the other direction / the other socket id end up as {rest}")
+            if w.delivered:
+                bad.setdefault("send:at-most-one-delivery-per-path", f"no socket uses callbacks, yet callbacks received {w.delivered}")
+        # callbacks: on the receiver, on both, on one socket id only
+        for cb_a, cb_b in ((False, True), (True, True), (True, False)):
+            n_hist += 1
+            w = World()
+            a, b = w.pair(0, cb_a, cb_b)
+            a1, b1 = w.pair(1, False, False)
+            for t_ in ("m1", "m2"):
+                w.call(a, "send", t_)
+            w.call(b, "send", "r1")
+            w.call(a1, "send", "x1")
+            w.call(b1, "send", "y1")
+            seen = {"a": (w.delivered.get(w.key(a), []), w.drain(a)), "b": (w.delivered.get(w.key(b), []), w.drain(b)),
+                    "a1": (w.delivered.get(w.key(a1), []), w.drain(a1)), "b1": (w.delivered.get(w.key(b1), []), w.drain(b1))}
+            want = {"a": (["r1"], []) if cb_a else ([], ["r1"]), "b": (["m1", "m2"], []) if cb_b else ([], ["m1", "m2"]), "a1": ([], ["y1"]), "b1": ([], ["x1"])}
+            if seen != want:
+                sent = {"a": ["r1"], "b": ["m1", "m2"], "a1": ["y1"], "b1": ["x1"]}
+                total = {k_: sorted(v_[0] + v_[1]) for k_, v_ in seen.items()}
+                everything = sum(total.values(), [])
+                if any(everything.count(x_) > 1 for x_ in everything):
+                    which = "send:at-most-one-delivery-per-path"
+                    why = "a message is delivered more than once (callback and queue, or twice)"
+                elif sorted(sum(total.values(), [])) != sorted(sum(sent.values(), [])):
+                    which = "send:callback-gets-the-message"
+                    why = "what arrives is not what was sent"
+                else:
+                    which = "send:callback-looked-up-under-remote_key"
+                    why = "a message reaches the wrong endpoint or the wrong delivery path (callbacks belong to the socket registered under its own key; the sender finds them under its remote_key)"
+                bad.setdefault(which, f"callbacks on alice={cb_a}, bob={cb_b} (socket id 0; id 1 without): {why}; (callback, queue) per endpoint {seen}, expected {want}")
+        # not connected: every send wrapper refuses and hands nothing over
+        for smeth, rmeth in SENDS:
+            for who in ("peer", "self"):
+                n_hist += 1
+                w = World()
+                a, b = w.pair(0)
+                mk = (lambda t_: w.structured("h", t_)) if smeth == "send_structured" else (lambda t_: t_)
+                w.call(w.hub, "disconnect", b if who == "peer" else a)
+                r_ = w.call(a, smeth, mk("too late"))
+                left = w.drain(b)
+                if r_ != ("raises", "ConnectionError") or left:
+                    bad.setdefault(f"ThreadSocket.{smeth}:refuses-when-not-connected", f"after {'the peer' if who == 'peer' else 'the socket itself'} has disconnected, {smeth} gives {r_} and the hub holds {[plain(x_) for x_ in left]} for the peer; expected ConnectionError and nothing handed over")
+        # sent before the disconnect: still received
+        for smeth, rmeth in SENDS:
+            for also_receiver in (False, True):
+                n_hist += 1
+                w = World()
+                a, b = w.pair(0)
+                mk = (lambda t_: w.structured("h", t_)) if smeth == "send_structured" else (lambda t_: t_)
+                w.call(a, smeth, mk("last words"))
+                w.call(w.hub, "disconnect", a)
+                if also_receiver:
+                    w.call(w.hub, "disconnect", b)
+                r_ = w.call(b, rmeth, block=True, timeout=0.5)
+                if (r_[0], plain(r_[1])) != ("ok", plain(mk("last words"))):
+                    bad.setdefault(f"ThreadSocket.{rmeth}:reaches-the-hub-whatever-the-connection-state", f"a message sent before the sender disconnected{' (the receiver has disconnected too)' if also_receiver else ''}: {rmeth} gives {(r_[0], plain(r_[1]))}; it is still in the hub's queue and has to be received")
+        # publication: a message sent the moment the rendezvous allows it reaches the callback
+        model_a = C.Obj(None, {"key": ("alice", "bob", 0), "remote_key": ("bob", "alice", 0), "id": 0, "app_name": "alice", "remote_app_name": "bob", "use_callbacks": False})
+        subclasses = [c for mod in repo.modules.values() for c in mod.classes.values() if c is not ts and ts in repo.mro(c)]
+        for with_cb in (False,):
+            n_hist += 1
+            w = World()
+            state = {}
+
+            def at_publication(k_, w=w, state=state):
+                if k_ == ("bob", "alice", 0) and "sent" not in state:
+                    state["sent"] = w.call(w.hub, "send", model_a, "at once")
+            w.registry.hook = at_publication
+            w.script.append(lambda w=w, state=state: state.__setitem__("b", w.socket("bob", "alice", 0, with_cb)))
+            w.socket("alice", "bob", 0, False)
+            if "sent" not in state or state.get("b") is None:
+                raise AnalysisError("the moment of publication was not observed (the key never appeared in the hub's `_open_sockets`)")
+            left = w.drain(state["b"])
+            if left != ["at once"]:
+                bad["connect:a-message-queued-during-the-rendezvous-stays-queued"] = (f"the peer sends the moment the socket's key is published, while the socket's connect() is still running: afterwards the hub holds "
+                                                                                     f"{left} for the socket, expected ['at once'] (a whole-queue operation in connect / disconnect discards what was already sent)")
+        for cls_ in [ts] + subclasses:
+            for order in ("callback socket waits, the peer connects and sends at once", "the peer waits, sends the moment the callback socket's key is published"):
+                n_hist += 1
+                w = World(record_callbacks=cls_ is ts)
+                state = {}
+                try:
+                    if order.startswith("callback"):
+                        def peer(w=w, state=state):
+                            a_ = w.socket("alice", "bob", 0, False)
+                            state["sent"] = w.call(a_, "send", "at once")
+                        w.script.append(peer)
+                        b = w.socket("bob", "alice", 0, True, cls_)
+                    else:
+                        def at_publication(k_, w=w, state=state):
+                            if k_ == ("bob", "alice", 0) and "sent" not in state:
+                                state["sent"] = w.call(w.hub, "send", model_a, "at once")
+                        w.registry.hook = at_publication
+                        w.script.append(lambda w=w, state=state: state.__setitem__("b", w.socket("bob", "alice", 0, True, cls_)))
+                        w.socket("alice", "bob", 0, False)
+                        b = state.get("b")
+                    if state.get("sent", ("", ""))[0] == "raises" and state["sent"][1] == "AttributeError" and cls_ is not ts:
+                        raise C.EvalRaise("AttributeError", "in the callback")
+                    if "sent" not in state or b is None:
+                        raise AnalysisError(f"history `{order}`: the moment of publication was not observed (the key never appeared in the hub's `_open_sockets`)")
+                    if cls_ is ts:
+                        got = (state["sent"], w.delivered.get(w.key(b), []), w.drain(b))
+                        if got != (("ok", None), ["at once"], []):
+                            bad.setdefault("connect:callbacks-registered-before-key-published", f"{order}: the send gives {got[0]}, the callback received {got[1]}, the queue holds {got[2]}; a callback socket never reads the queue, "
+                                                                                                 "so its callbacks have to be registered before its key is visible to the peer")
+                except C.EvalRaise as ex_:
+                    if cls_ is ts:
+                        raise AnalysisError(f"history `{order}` raises {ex_.exc_name}")
+                    bad.setdefault(f"{cls_.name}.__init__:state-of-the-callbacks-exists-before-the-socket-is-published",
+                                   f"{order}: {ex_.exc_name} ({ex_}) - the callback of {cls_.name} runs while its constructor is still waiting in the base constructor's rendezvous, "
+                                   "and reads state that the constructor creates only afterwards: the message is delivered nowhere")
+    except _KeysBroken:
+        ctx.check("C18.K", "ThreadSocket:remote_key-mirrors-key", False, bad["ThreadSocket:remote_key-mirrors-key"], ts.loc(ts.methods["remote_key"]) if "remote_key" in ts.methods else None)
+        return
+    except AnalysisError as ex_:
+        ctx.error("C18.K", f"the socket classes cannot be executed: {ex_}")
+        return
+    ctx.anchor("C18.K", "socket histories executed", n_hist, 20)
+    loc = ts.loc(ts.methods["send"]) if "send" in ts.methods else None
+    names = ["ThreadSocket:remote_key-mirrors-key", "send:callback-looked-up-under-remote_key", "send:callback-gets-the-message", "send:at-most-one-delivery-per-path"]
+    names += [f"ThreadSocket.{s_}:passes-own-socket-and-message" for s_, _ in SENDS]
+    for nm in names:
+        ctx.check("C18.K", nm, nm not in bad, bad.get(nm, ""), loc)
+    for s_, r_ in SENDS:
+        nm = f"ThreadSocket.{s_}:refuses-when-not-connected"
+        ctx.check("C18.I", nm, nm not in bad, bad.get(nm, ""), loc)
+        nm = f"ThreadSocket.{r_}:reaches-the-hub-whatever-the-connection-state"
+        ctx.check("C18.W", nm, nm not in bad, bad.get(nm, ""), loc)
+    nm = "connect:a-message-queued-during-the-rendezvous-stays-queued"
+    ctx.check("C18.Q", nm, nm not in bad, bad.get(nm, ""), repo.loc(hub.module, hub.methods["connect"]) if "connect" in hub.methods else loc)
+    nm = "connect:callbacks-registered-before-key-published"
+    ctx.check("C18.I", nm, nm not in bad, bad.get(nm, ""), repo.loc(hub.module, hub.methods["connect"]) if "connect" in hub.methods else loc)
+    for c in subclasses:
+        nm = f"{c.name}.__init__:state-of-the-callbacks-exists-before-the-socket-is-published"
+        ctx.check("C18.I", nm, nm not in bad, bad.get(nm, ""), c.loc(c.methods["__init__"]) if "__init__" in c.methods else None)
 
 
 def check_receive(ctx, hub, rule="C18.E"):
@@ -214,7 +486,8 @@ def check_receive(ctx, hub, rule="C18.E"):
              "returns-the-popped-head": "recv does not return exactly the message it removed from the head of the queue",
              "blocking-receive-times-out": "a blocking receive does not poll until the timeout"}
     for key, text in texts.items():
-        ctx.check(rule, f"recv:{key}", key not in bad, f"{text}: {bad.get(key)}", repo.loc(m, recv))
+        # (the two FIFO clauses are reported as C18.Q, the non-blocking / polling clauses as C18.E)
+        ctx.check("C18.Q" if rule == "C18.E" and key in ("returns-the-popped-head", "emptiness-tested-on-own-queue-each-iteration") else rule, f"recv:{key}", key not in bad, f"{text}: {bad.get(key)}", repo.loc(m, recv))
 
 
 def check_rendezvous(ctx, hub, rule="C18.R"):
@@ -362,154 +635,19 @@ def run(ctx):
     repo = ctx.repo
     hub = repo.get_class(HUB, "_SocketHub")
     m = hub.module
-    # locals of send / recv named by role (nqsa/roles.py)
-    if hub.methods.get("send") is not None:
-        roles.normalise(ctx, hub.methods["send"], ["$recv_callback=self._recv_callbacks.get(socket.remote_key)", "$method=$recv_callback()"], "_SocketHub.send")
-    if hub.methods.get("recv") is not None:
-        roles.normalise(ctx, hub.methods["recv"], ["$messages=self._messages[socket.key]", "$msg=$messages.pop(0)", "$t_start=timer()"], "_SocketHub.recv")
-    # ---- C18.Q
-    uses = 0
-    for name, fn in sorted(hub.methods.items()):
-        if name == "__init__":
-            continue
-        par = parents(fn)
-        sockp = A.param_names(fn)[1] if len(A.param_names(fn)) > 1 else None
-        alias: Dict[str, str] = {}
-        # a local bound once to an attribute of a parameter (`key = socket.key`) stands for that attribute
-        params_ = set(A.param_names(fn))
-        naming = {k_: v_ for k_, v_ in A.single_defs(fn).items() if isinstance(v_, ast.Attribute) and isinstance(v_.value, ast.Name) and v_.value.id in params_}
-        for n in A.body_nodes(fn):
-            if isinstance(n, ast.Assign) and isinstance(n.targets[0], ast.Name) and isinstance(n.value, ast.Subscript) and A.is_self_attr(n.value.value, "_messages"):
-                alias[n.targets[0].id] = A.norm(A.expand(n.value.slice, naming))
-        for n in A.body_nodes(fn):
-            q = None
-            key = None
-            if isinstance(n, ast.Subscript) and A.is_self_attr(n.value, "_messages"):
-                q, key = n, A.norm(A.expand(n.slice, naming))
-            elif isinstance(n, ast.Name) and isinstance(n.ctx, ast.Load) and n.id in alias:
-                q, key = n, alias[n.id]
-            if q is None:
-                continue
-            p = par.get(id(q))
-            if isinstance(p, ast.Assign) and p.value is q:
-                continue
-            uses += 1
-            ctx.fn(f"_SocketHub.{name}")
-            form, ok = None, None
-            if isinstance(p, ast.Attribute) and isinstance(par.get(id(p)), ast.Call):
-                call = par[id(p)]
-                if p.attr == "append" and len(call.args) == 1:
-                    form, ok = "append(msg)", (name == "send" and key == f"{sockp}.remote_key")
-                elif p.attr == "pop":
-                    form = "pop(" + ", ".join(src(a) for a in call.args) + ")"
-                    ok = len(call.args) == 1 and isinstance(call.args[0], ast.Constant) and call.args[0].value == 0 and name == "recv" and key == f"{sockp}.key"
-                elif p.attr in ("insert", "remove", "clear", "extend", "sort", "reverse"):
-                    form, ok = p.attr + "(...)", False
-            elif isinstance(p, ast.Call) and dotted(p.func) == "len":
-                form, ok = "len(...)", True
-            elif isinstance(p, ast.Subscript) and p.value is q:
-                form = f"[{src(p.slice)}]"
-                ok = isinstance(p.slice, ast.Constant) and p.slice.value == 0 and name == "recv" and key == f"{sockp}.key"
-            if ok is None:
-                ctx.error("C18.Q", f"{name}: use of _messages in an unrecognised form `{src(p)[:60] if p is not None else src(q)}`")
-                continue
-            ctx.check("C18.Q", f"{name}:_messages[{key}]:{form}", ok,
-                      f"_SocketHub.{name} uses the message queue under key {key} as `{form}`; FIFO delivery needs: send appends at the tail of the receiver's queue (remote_key), recv pops the head (pop(0)) of its own queue (key)",
-                      repo.loc(m, q), sample={"function": name, "key": key, "form": form})
-    # dict-level operations on the queues (dropping or replacing a whole queue) lose messages
-    for name, fn in sorted(hub.methods.items()):
-        if name == "__init__":
-            continue
-        for n in ast.walk(fn):
-            bad = None
-            if isinstance(n, ast.Call) and isinstance(n.func, ast.Attribute) and A.is_self_attr(n.func.value, "_messages") and n.func.attr in ("pop", "clear", "popitem", "update", "setdefault"):
-                bad = src(n)
-            elif isinstance(n, ast.Delete) and any(isinstance(t, ast.Subscript) and A.is_self_attr(t.value, "_messages") for t in n.targets):
-                bad = src(n)
-            elif isinstance(n, ast.Assign) and any((isinstance(t, ast.Subscript) and A.is_self_attr(t.value, "_messages")) or A.is_self_attr(t, "_messages") for t in n.targets):
-                bad = src(n)
-            if bad is not None:
-                uses += 1
-                ctx.check("C18.Q", f"{name}:_messages:whole-queue-operation", False,
-                          f"_SocketHub.{name} does `{bad[:70]}`: removing or replacing a whole queue discards messages that were sent but not yet received (a peer may already have queued them)", repo.loc(m, n))
-    ctx.anchor("C18.Q", "uses of the message queues", uses, 3)
-    # ---- C18.K key mirror
+    # ---- C18.K / C18.I / C18.W: the socket classes executed as an application uses them
     ts = repo.get_class(SOCK, "ThreadSocket")
-    kf, rf = ts.methods.get("key"), ts.methods.get("remote_key")
-    if kf is None or rf is None:
-        raise AnalysisError("ThreadSocket.key/remote_key not found")
     ctx.fn("ThreadSocket.key")
     ctx.fn("ThreadSocket.remote_key")
-
-    def tup(fn):
-        r = A.returns(fn)
-        if len(r) == 1 and isinstance(r[0].value, ast.Tuple):
-            out = []
-            for e in r[0].value.elts:
-                if A.is_self_attr(e):
-                    al = repo.property_alias(ts, e.attr) or e.attr
-                    out.append(al)
-                else:
-                    out.append(src(e))
-            return out
-        return None
-    k, rk = tup(kf), tup(rf)
-    ok = k is not None and rk is not None and len(k) == 3 and rk == [k[1], k[0], k[2]] and k[0] != k[1]
-    ctx.check("C18.K", "ThreadSocket:remote_key-mirrors-key", ok, f"key = {k}, remote_key = {rk}; remote_key must be key with the two application names swapped and the same id", ts.loc(rf), sample={"key": k, "remote_key": rk})
-    # roles in the hub
-    def keys_used(fn, what):
-        out = set()
-        # a local bound once to an attribute of a parameter (`key = socket.key`) stands for that attribute
-        params_ = set(A.param_names(fn))
-        naming = {k_: v_ for k_, v_ in A.single_defs(fn).items() if isinstance(v_, ast.Attribute) and isinstance(v_.value, ast.Name) and v_.value.id in params_}
-        for n in A.body_nodes(fn):
-            if isinstance(n, ast.Subscript) and A.is_self_attr(n.value, what):
-                out.add(A.norm(A.expand(n.slice, naming)))
-            if isinstance(n, ast.Call) and isinstance(n.func, ast.Attribute) and n.func.attr in ("get", "pop") and A.is_self_attr(n.func.value, what) and n.args:
-                out.add(A.norm(A.expand(n.args[0], naming)))
-        return out
-    send, recv, addcb, conn = (hub.methods.get(x) for x in ("send", "recv", "_add_callbacks", "connect"))
-    if not all((send, recv, addcb, conn)):
-        raise AnalysisError("_SocketHub.send/recv/_add_callbacks/connect not found")
-    sp = A.param_names(send)[1]
-    ctx.check("C18.K", "send:callback-looked-up-under-remote_key", keys_used(send, "_recv_callbacks") == {f"{sp}.remote_key"},
-              f"send looks the receive callback up under {sorted(keys_used(send, '_recv_callbacks'))}; must be the receiver's key (remote_key)", repo.loc(m, send))
-    ap = A.param_names(addcb)[1]
-    ctx.check("C18.K", "_add_callbacks:registered-under-key", keys_used(addcb, "_recv_callbacks") == {f"{ap}.key"},
-              f"callbacks are registered under {sorted(keys_used(addcb, '_recv_callbacks'))}; must be the socket's own key", repo.loc(m, addcb))
-    # the callback receives the message that was sent
-    msgp = A.param_names(send)[2]
-    cb_calls = [c for c in A.calls_in(send) if isinstance(c.func, ast.Name) and c.func.id == "method"]
-    ctx.check("C18.K", "send:callback-gets-the-message", len(cb_calls) == 1 and len(cb_calls[0].args) == 1 and A.norm(cb_calls[0].args[0]) == msgp,
-              "the receive callback is not called exactly once with the sent message", repo.loc(m, send))
-    # a message is delivered either to the callback or to the queue, not both / neither
-    cfg = F.CFG(send)
-
-    def deliver(st):
-        return F.events_in(st, lambda n: isinstance(n, ast.Call) and ((isinstance(n.func, ast.Name) and n.func.id == "method") or (isinstance(n.func, ast.Attribute) and n.func.attr == "append" and "_messages" in A.norm(n.func.value))))
-    mn, mx = cfg.count_on_paths(deliver)
-    ctx.check("C18.K", "send:at-most-one-delivery-per-path", mx == 1, f"a send delivers between {mn} and {mx} times on its paths (callback call or queue append); more than one is a duplicate", repo.loc(m, send),
-              sample={"deliveries per path": [mn, mx]})
+    for meth_ in ("send", "send_structured", "send_silent", "recv", "recv_structured", "recv_silent"):
+        if meth_ in ts.methods:
+            ctx.fn(f"ThreadSocket.{meth_}")
+    check_socket_api(ctx, hub, ts)
     # ---- C18.E  (abstract execution)
     check_receive(ctx, hub)
     # the sleep is only on the path that continues polling (after the timeout test)
     # ---- C18.I
     ctx.fn("_SocketHub.connect")
-    cp = A.param_names(conn)[1]
-    idx_cb = idx_pub = None
-    for i, st in enumerate(conn.body):
-        for c in A.calls_in(st):
-            if A.is_self_attr(c.func, "_add_callbacks"):
-                idx_cb = i if idx_cb is None else idx_cb
-            if isinstance(c.func, ast.Attribute) and c.func.attr == "add" and A.is_self_attr(c.func.value, "_open_sockets") and c.args and A.norm(c.args[0]) == f"{cp}.key":
-                idx_pub = i if idx_pub is None else idx_pub
-    if idx_cb is None or idx_pub is None:
-        ctx.error("C18.I", "connect: callback registration / key publication not found at the top level of the function")
-    else:
-        ctx.check("C18.I", "connect:callbacks-registered-before-key-published", idx_cb < idx_pub,
-                  "connect() adds the socket's key to _open_sockets before registering its callbacks: a peer that sends in that window has its message queued "
-                  "instead of delivered to the callback, and a callback socket never reads the queue", repo.loc(m, conn.body[idx_pub]),
-                  sample={"register at statement": idx_cb, "publish at statement": idx_pub})
     # is_connected requires both keys; the socket-level send refuses when not connected
     ic = hub.methods.get("is_connected")
     if ic is not None:
@@ -529,49 +667,7 @@ def run(ctx):
             ctx.check("C18.I", "is_connected:both-endpoints-open", False, f"is_connected raises {ex_}", repo.loc(m, ic))
         except AnalysisError as ex_:
             ctx.error("C18.I", f"is_connected cannot be evaluated: {ex_}")
-    for meth in ("send", "send_structured", "send_silent"):
-        fn = ts.methods.get(meth)
-        if fn is None:
-            continue
-        hub_send = [c for c in A.calls_in(fn) if A.norm(c.func) == "self._SOCKET_HUB.send"]
-        guarded = False
-        for c in hub_send:
-            for st in G.dominating_stmts(fn, c):
-                cond = G.raising_condition(st)
-                if cond is not None and A.norm(cond) == "notself.connected":
-                    guarded = True
-        ctx.check("C18.I", f"ThreadSocket.{meth}:refuses-when-not-connected", bool(hub_send) and guarded, f"ThreadSocket.{meth} hands the message to the hub without first raising when the socket is not connected", ts.loc(fn), trivial=True)
-    # hub sends use the socket itself and the message parameter
-    for meth in ("send", "send_structured", "send_silent"):
-        fn = ts.methods.get(meth)
-        if fn is None:
-            continue
-        mp = A.param_names(fn)[1]
-        ok = any(A.norm(c.func) == "self._SOCKET_HUB.send" and [A.norm(a) for a in c.args] == ["self", mp] for c in A.calls_in(fn))
-        ctx.check("C18.K", f"ThreadSocket.{meth}:passes-own-socket-and-message", ok, f"ThreadSocket.{meth} does not call hub.send(self, {mp})", ts.loc(fn), trivial=True)
-    # a queued message outlives its sender's connection: the receive wrappers reach the hub whatever the peer's state is
-    n_recv = 0
-    for meth, fn in sorted(ts.methods.items()):
-        hub_recv = [c for c in A.calls_in(fn) if A.norm(c.func) == "self._SOCKET_HUB.recv"]
-        if not hub_recv:
-            continue
-        n_recv += 1
-        ctx.fn(f"ThreadSocket.{meth}")
-        blockers = []
-        for c in hub_recv:
-            for st in G.dominating_stmts(fn, c):
-                cond = G.raising_condition(st)
-                if cond is not None and any(isinstance(x, ast.Attribute) and isinstance(x.value, ast.Name) and x.value.id == "self" for x in ast.walk(cond)):
-                    blockers.append(src(cond))
-            for t, pol in G.path_conditions(fn, c):
-                if any(isinstance(x, ast.Attribute) and isinstance(x.value, ast.Name) and x.value.id == "self" for x in ast.walk(t)):
-                    blockers.append(("" if pol else "not ") + src(t))
-        ctx.check("C18.W", f"ThreadSocket.{meth}:reaches-the-hub-whatever-the-connection-state", not blockers,
-                  f"ThreadSocket.{meth} only asks the hub for a message when `{'; '.join(blockers)}` allows it: a message that was sent before the sender disconnected "
-                  "(it is still in the hub's queue) is then never received", ts.loc(fn), sample={"wrapper": meth})
-    ctx.anchor("C18.W", "receive wrappers around hub.recv", n_recv, 3)
     # 0 is an ordinary id / value / address: nothing int-valued may be tested by truthiness (nqsa/truth.py)
-    check_subclass_state_before_publish(ctx, ts, "C18.I")
     try:
         check_rendezvous(ctx, hub, "C18.R")
     except AnalysisError as ex_:
@@ -603,16 +699,16 @@ SEEDS = [
          old="        # TODO use maxsize?\n        msg = self._SOCKET_HUB.recv(self, block=block, timeout=timeout)\n        # if not isinstance(msg, StructuredMessage):",
          new="        if not self.connected:\n            raise ConnectionError(\"not connected\")\n        msg = self._SOCKET_HUB.recv(self, block=block, timeout=timeout)\n        # if not isinstance(msg, StructuredMessage):"),
     dict(id="c18-pop-last", file=H, expect="C18.Q", construct="recv", old="                    msg = messages.pop(0)", new="                    msg = messages.pop()"),
-    dict(id="c18-insert-front", file=H, expect="C18.Q", construct="send", old="                self._messages[socket.remote_key].append(msg)", new="                self._messages[socket.remote_key].insert(0, msg)"),
-    dict(id="c18-queue-own-key", file=H, expect="C18.Q", construct="send", old="                self._messages[socket.remote_key].append(msg)", new="                self._messages[socket.key].append(msg)"),
+    dict(id="c18-insert-front", file=H, expect="C18.Q", construct="recv:", old="                self._messages[socket.remote_key].append(msg)", new="                self._messages[socket.remote_key].insert(0, msg)"),
+    dict(id="c18-queue-own-key", file=H, expect="C18.Q", construct="recv:", old="                self._messages[socket.remote_key].append(msg)", new="                self._messages[socket.key].append(msg)"),
     dict(id="c18-remote-key", file=S, expect="C18.K", construct="remote_key", old="        return self.remote_app_name, self.app_name, self.id", new="        return self.remote_app_name, self.app_name, 0"),
     dict(id="c18-callback-key", file=H, expect="C18.K", construct="send:callback", old="        recv_callback = self._recv_callbacks.get(socket.remote_key)", new="        recv_callback = self._recv_callbacks.get(socket.key)"),
     dict(id="c18-nonblock-raise", file=H, expect="C18.E", construct="non-blocking", old="                if not block:\n                    raise RuntimeError(f\"No message to receive on socket {socket.key}\")", new="                if not block and timeout is not None:\n                    raise RuntimeError(f\"No message to receive on socket {socket.key}\")"),
     dict(id="c18-nonblock-sleep", file=H, expect="C18.E", construct="no-sleep", old="            if len(messages) == 0:\n                if not block:", new="            if len(messages) == 0:\n                sleep(self.__class__._RECV_SLEEP_TIME)\n                if not block:"),
     dict(id="c18-publish-first", file=H, expect="C18.I", construct="connect", old="        self._add_callbacks(socket)\n        self._open_sockets.add(socket.key)\n        self._remote_sockets.add(socket.key)\n", new="        self._open_sockets.add(socket.key)\n        self._remote_sockets.add(socket.key)\n        self._add_callbacks(socket)\n"),
     dict(id="c18-double-delivery", file=H, expect="C18.K", construct="at-most-one-delivery", old="                method(msg)\n        else:", new="                method(msg)\n                self._messages[socket.remote_key].append(msg)\n        else:"),
-    dict(id="c18-purge-on-connect", file=H, expect="C18.Q", construct="whole-queue", old="        self._remote_sockets.add(socket.key)\n", new="        self._remote_sockets.add(socket.key)\n        self._messages.pop(socket.key, None)\n"),
-    dict(id="c18-stale", file=H, expect="C18.E", construct="returns-the-popped", old="                    msg = messages.pop(0)\n", new="                    msg = messages[-1]\n                    messages.pop(0)\n"),
+    dict(id="c18-purge-on-connect", file=H, expect="C18.Q", construct="stays-queued", old="        self._remote_sockets.add(socket.key)\n", new="        self._remote_sockets.add(socket.key)\n        self._messages.pop(socket.key, None)\n"),
+    dict(id="c18-stale", file=H, expect="C18.Q", construct="returns-the-popped", old="                    msg = messages.pop(0)\n", new="                    msg = messages[-1]\n                    messages.pop(0)\n"),
 ]
 BENIGN = [
     dict(id="c18-benign-discard", file=H, old="            if socket.key in self._open_sockets:\n                self._open_sockets.remove(socket.key)\n            if socket.remote_key in self._remote_sockets:\n                self._remote_sockets.remove(socket.remote_key)\n",
